@@ -129,13 +129,14 @@ Definition counted_pairs (p : pk) : option (res (list (bytes * bytes)) * Z) :=
 
 (* ====================================================================================== *)
 (* 3. SOCKS request parser (socks.py).  One handler per protocol state; [need] is _bytes_needed
-      (-1 = up to a NUL byte).  [sopen] = self._transport is not None.  close() drops the transport but
-      leaves _recv_handler in place, so the while loop of data_received goes on running handlers on a
-      closed forwarder; the handlers that touch the transport then fail their assert (AssertionError), or,
-      with asserts compiled out (python -O), raise AttributeError - except _recv_socks5_authlist, which
-      without asserts reaches close() again and returns normally.
-      Two switches: [asserts] (False = python -O) and [repaired] (True = the proposed repair: close() also
-      clears _recv_handler). *)
+      (-1 = up to a NUL byte).  [sopen] = self._transport is not None.
+      Two switches.  [repaired]: True models the code as it is since fix 7ae04cf (SSHSOCKSForwarder.close()
+      also clears _recv_handler, which ends the while loop of data_received); False models the code before
+      that fix, where close() dropped the transport but left the handler in place, so that the loop went on
+      running handlers on a closed forwarder: the handlers that touch the transport then failed their assert
+      (AssertionError), or, with asserts compiled out (python -O), raised AttributeError - except
+      _recv_socks5_authlist, which without asserts reached close() again and returned normally.
+      [asserts]: False = python -O. *)
 
 Inductive shandler := HVersion | H4Addr | H4User | H4Host | H5Auth | H5Cmd | H5Addr | H5HostLen | H5Host
                     | H5Port | HNone.
